@@ -1468,9 +1468,6 @@ macro_rules! lx_datalines_direct_harness {
     };
 }
 lx_datalines_direct_harness!(7, 32, 9, lx_datalines_direct_k2, false, &['c', 'A', 'r', 'd', 's']);
-lx_datalines_direct_harness!(8, 36, 10, lx_datalines_direct_k3, false, &['c', 'A', 'r', 'd', 's']);
-lx_datalines_direct_harness!(9, 40, 11, lx_datalines_direct_k4, false, &['l', 'i', 'n', 'e', 's']);
-lx_datalines_direct_harness!(12, 52, 14, lx_datalines4_direct_k6, true, &['c', 'a', 'r', 'd', 's', '4']);
 
 // =============================================================================================
 // The four macro-text dispatchers as classifiers (C01 progress, C04 line feeds consumed by the
@@ -1810,3 +1807,115 @@ lx_harness! {
         std::mem::forget(lx);
     }
 }
+
+
+// Datalines with the keyword inside the constant prefix: only the followers are symbolic, so the unwind
+// bound (and with it every scanning loop of lex_datalines) stays small.
+pub(crate) fn setup_after_cards<'a, const K: usize, const B: usize>(t: &'a Txt<K, B>) -> Lexer<'a> {
+    let src = t.as_str();
+    shadow::reset(src.len());
+    shadow::set_source(src);
+    let buffer = WorkTokenizedBuffer::verif_new(src.len(), 4);
+    let cursor = cursor::Cursor::new(src);
+    let mut mode_stack = Vec::with_capacity(MODE_CAP);
+    mode_stack.push(LexerMode::Default);
+    let mut lx = Lexer {
+        source: src,
+        source_len: src.len() as u32,
+        buffer,
+        cursor,
+        cur_token_byte_offset: ByteOffset::new(0),
+        cur_token_start: CharOffset::new(0),
+        cur_token_line: super::buffer::verif::line_idx(0),
+        #[cfg(debug_assertions)]
+        last_state: (src.len() as u32, Vec::new()),
+        mode_stack,
+        errors: Vec::with_capacity(ERR_CAP),
+        checkpoint: None,
+        macro_nesting_level: 0,
+        pending_stat_stack: BitVec::from_elem(1, false),
+    };
+    lx.buffer.add_line(ByteOffset::new(0), CharOffset::new(0));
+    lx.cursor.advance();
+    lx.cursor.advance();
+    lx.add_line();
+    // the identifier scanner starts the token at the keyword and consumes it
+    lx.start_token();
+    lx.cursor.advance();
+    lx.cursor.advance();
+    lx.cursor.advance();
+    lx.cursor.advance();
+    lx.cursor.advance();
+    lx
+}
+
+macro_rules! lx_datalines_pfx_harness {
+    ($k:literal, $b:literal, $uw:literal, $name:ident) => {
+        lx_harness! {
+            #[kani::unwind($uw)]
+            fn $name() {
+                let t = Txt::<$k, $b>::any_after_cards();
+                let mut lx = setup_after_cards(&t);
+                let prev: u8 = kani::any();
+                kani::assume(prev < 3);
+                if prev == 1 {
+                    shadow::preload_token(shadow::mk_token(TokenChannel::DEFAULT, TokenType::SEMI, 1, 1, 0, Payload::None));
+                } else if prev == 2 {
+                    shadow::preload_token(shadow::mk_token(TokenChannel::DEFAULT, TokenType::Identifier, 1, 1, 0, Payload::None));
+                }
+                if prev != 0 && kani::any() {
+                    shadow::preload_token(shadow::mk_token(TokenChannel::HIDDEN, TokenType::WS, 2, 1, 0, Payload::None));
+                }
+                let pre = snapshot(&lx, &t);
+                let r = lx.lex_datalines(false);
+                let pi = check_common(&lx, &t, &pre);
+                // reference: blanks then ';' right after the keyword, at statement start
+                let mut j = 0;
+                let mut i = 0;
+                while i < $k {
+                    if i == j && i < t.n && t.ch[i].is_whitespace() {
+                        j += 1;
+                    }
+                    i += 1;
+                }
+                let is_dl = prev != 2 && j < t.n && t.ch[j] == ';';
+                assert!(r == is_dl, "C11/C15: a datalines block starts with its keyword at statement start, followed by blanks and ';'");
+                if !is_dl {
+                    assert!(pi == 0 && shadow::tok_n() == pre.tok_n && lx.errors.len() == pre.err_n, "C11: otherwise nothing is consumed or emitted");
+                } else {
+                    assert!(shadow::tok_n() == pre.tok_n + 3, "C10: a datalines start is followed by its data token and its terminator");
+                    let (a, b, c) = (shadow::tok(pre.tok_n), shadow::tok(pre.tok_n + 1), shadow::tok(pre.tok_n + 2));
+                    assert!(a.token_type == TokenType::DatalinesStart && b.token_type == TokenType::DatalinesData && c.token_type == TokenType::SEMI, "C10: start, data, terminator");
+                    assert!(a.channel == TokenChannel::DEFAULT && b.channel == TokenChannel::DEFAULT && c.channel == TokenChannel::DEFAULT, "C06: on the default channel");
+                    assert!(a.byte_offset.get() == 3 && a.start.get() == 2 && t.idx_of(b.byte_offset.get() as usize) == Some(j + 1), "C06/C11/C02: the start token runs from the keyword through the statement's ';'");
+                    let mut end = t.n;
+                    let mut found = false;
+                    let mut i = 0;
+                    while i < $k {
+                        if i > j && !found && i < t.n && t.ch[i] == ';' {
+                            end = i;
+                            found = true;
+                        }
+                        i += 1;
+                    }
+                    assert!(t.idx_of(c.byte_offset.get() as usize) == Some(end), "C06/C11: the data token ends at the first terminator");
+                    assert!(pi == end + found as usize, "C06: the terminator token consists of the terminator characters only");
+                    assert!(lx.errors.len() == pre.err_n + (!found) as usize, "C09: an unterminated block is reported once");
+                    if !found {
+                        assert!(lx.errors[pre.err_n].error_kind() == ErrorKind::UnterminatedDatalines && lx.errors[pre.err_n].at_byte_offset() as usize == t.len, "C09: at the end of input");
+                    }
+                }
+                assert!(lx.mode_stack.len() == pre.stack_len && lx.checkpoint.is_none());
+                kani::cover!(is_dl && j > 0 && t.ch[0] == '\u{a0}', "Unicode blank between keyword and ';'");
+                kani::cover!(is_dl && prev == 0);
+                kani::cover!($k < 3 || (is_dl && pi == t.n && t.ch[t.n - 1] == ';' && t.n >= j + 3), "data then terminator");
+                kani::cover!(is_dl && pi == t.n && t.ch[t.n - 1] != ';', "unterminated block");
+                kani::cover!(!is_dl && prev == 1);
+                std::mem::forget(lx);
+            }
+        }
+    };
+}
+lx_datalines_pfx_harness!(2, 20, 6, lx_datalines_pfx_k2);
+lx_datalines_pfx_harness!(3, 24, 6, lx_datalines_pfx_k3);
+lx_datalines_pfx_harness!(4, 28, 6, lx_datalines_pfx_k4);
